@@ -21,6 +21,8 @@ pub struct HistCfg {
     pub check_print: bool,
     pub check_serde: bool,
     pub weird_pct: u32,
+    /// percentage of operand nodes that carry a tower of 14-43 unary operators (0 = never; see `TreeCfg`)
+    pub tower_pct: u32,
 }
 
 pub fn leak(s: String) -> &'static str {
@@ -208,7 +210,7 @@ pub fn run_history(tape: &[u32], st: &mut Stats, cfg: &HistCfg) -> Result<HistOu
     let tcfg = if wide {
         TreeCfg { max_operands: 40, lit_pct: 8, unary_pct: 5, ..TreeCfg::default() }
     } else {
-        TreeCfg { max_operands: 5, lit_pct: 30, unary_pct: 15, ..TreeCfg::default() }
+        TreeCfg { max_operands: 5, lit_pct: 30, unary_pct: 15, tower_pct: cfg.tower_pct, ..TreeCfg::default() }
     };
     st.class_if(wide && pool.names.len() > 16, "pool of more than 16 variables");
     let mut w = World { table: table.clone(), pool: pool.clone(), entries: vec![], history: vec![] };
@@ -217,6 +219,9 @@ pub fn run_history(tape: &[u32], st: &mut Stats, cfg: &HistCfg) -> Result<HistOu
     // initial pool
     for _ in 0..3 {
         let tree = gen_tree(&mut t, &table, pool.names.len(), &tcfg);
+        if cfg.tower_pct > 0 {
+            st.class_if(tree_facts(&tree, &table).max_unary_chain > 16, "initial operand with a unary composition longer than 16");
+        }
         let (text, _, _) = render(&tree, &table, &pool, &RenderCfg::default(), &mut t);
         let text: &'static str = leak(text);
         // a quarter of the flat lineages start from an unfolded flat expression
